@@ -42,12 +42,15 @@ class TLCResult:
     timed_out: bool = False
     raw_tail: str = ""
     sim_files: List[str] = field(default_factory=list)
+    text: str = ""
+    verdicts: Dict[Any, Any] = field(default_factory=dict)
 
 
 _RE_STATS = re.compile(r"^(\d+) states generated, (\d+) distinct states found")
 _RE_DEPTH = re.compile(r"depth of the complete state graph search is (\d+)")
 _RE_SIMSTATS = re.compile(r"The number of states generated: (\d+)")
 _RE_COV = re.compile(r"^<(\w+) line \d+, col \d+ to line \d+, col \d+ of module (\w+)>: (\d+):(\d+)")
+_RE_VERDICT = re.compile(r'<<"V", (-?\d+), "([^"]*)", (-?\d+)>>')
 _RE_INV = re.compile(r"Error: Invariant (\S+) is violated")
 _RE_PROP = re.compile(r"Error: (?:Action|Temporal) propert(?:y|ies) (\S*) ?(?:is|were) violated")
 
@@ -165,6 +168,9 @@ def run_tlc(
     res = TLCResult(module=module, cmd=" ".join(cmd[cmd.index("tlc2.TLC"):]), wall_s=wall,
                     timed_out=timed_out)
     res.raw_tail = text[-6000:]
+    res.text = text
+    for m in _RE_VERDICT.finditer(text):
+        res.verdicts[int(m.group(1))] = (m.group(2), int(m.group(3)))
     for line in text.splitlines():
         m = _RE_STATS.match(line)
         if m:
